@@ -6,6 +6,7 @@ sys.path.insert(0, os.path.join(os.path.dirname(os.path.abspath(__file__)), 'che
 import spec
 
 NA = {
+    'C13': 'reproducible builds / cache staleness: the cache key is the SHA-256 of a YAML document that go.yaml.in/yaml/v3 marshals by reflection from os.Stat digests, go list output and environment probes (clang --version), and the property is quantified over histories of file edits against an on-disk cache; reflection-driven marshalling, process and file-system effects cannot be encoded by the hand-written go/ssa executor, and the encodable remainder (injectivity of three collect* helpers on stub inputs) would not decide the property (DESIGN.md 9.6)',
     'C08': 'size/alignment/offset agreement is quantified over Go *types* (go/types object graphs, LLVM TargetData behind cgo); there is no numeric input to make symbolic and the cgo side cannot be encoded - deciding it means enumerating types, a different technique (DESIGN.md section 4)',
     'C15': 'reflect/fmt: thousands of lines of reflection over run-time descriptors and string formatting, quantified over type shapes; needs whole-program execution of llgo output, which this sandbox (LLVM 14 only, no linker set-up) and a hand-written symbolic executor cannot reach (DESIGN.md section 4)',
     'C19': 'Go<->Python: the other side of every clause is CPython behind FFI, whose semantics cannot be encoded; no CPython-linked llgo program can be built here (DESIGN.md section 4)',
